@@ -458,6 +458,35 @@ def rule_fresh(ctx):
                                 f"registered for repeated use but carries {rc} across searches")
                 else:
                     r.ok(key, C.loc(m, call), f"registered {cls2.name} instance is query-pure")
+    # (4) (seed C13_12) no instance of a result-carrying class is parked in a module-level table / global
+    # from which later queries pick it up again ("set-up cost" memos of optimizers)
+    n_sites = 0
+    for m in ctx.p.modules.values():
+        for f in m.all_funcs:
+            glob = {x for n in walk_local(f.node) if isinstance(n, ast.Global) for x in n.names}
+            for n in walk_local(f.node):
+                if not isinstance(n, ast.Assign) or not isinstance(n.value, ast.Call):
+                    continue
+                t = ctx.p.resolve_expr_static(m, n.value.func, f)
+                if not isinstance(t, ClassInfo):
+                    continue
+                rc, _ = is_result_carrying(ctx, t)
+                if not rc:
+                    continue
+                n_sites += 1
+                for tg in n.targets:
+                    base = tg
+                    while isinstance(base, ast.Subscript):
+                        base = base.value
+                    is_mod_table = isinstance(tg, ast.Subscript) and isinstance(base, ast.Name) and base.id in m.assigns \
+                        and base.id not in ctx.r.local_assignments(f) and base.id not in f.params
+                    is_global = isinstance(tg, ast.Name) and tg.id in glob
+                    if is_mod_table or is_global:
+                        key = ctx.key(f, "C16-FRESH", f"parked:{t.name}")
+                        r.violation(key, C.loc(f, n), f"`{C.unparse(n, 70)}` keeps a {t.name} (carries {rc} across searches) in "
+                                    f"module state; the next query that picks it up can be answered with an earlier "
+                                    f"contraction's best result")
+    r.note(f"{n_sites} constructions of result-carrying optimizers inspected for parking in module state")
     return r
 
 
@@ -481,9 +510,50 @@ def rule_ownrun(ctx):
     clears = [n.id for n in cfg.nodes if n.kind == "stmt" and isinstance(n.ast, ast.Assign)
               and isinstance(n.ast.targets[0], ast.Name) and n.ast.targets[0].id == SR
               and isinstance(n.ast.value, ast.Constant) and n.ast.value.value is False]
-    tests = [n for n in cfg.nodes if n.kind == "test" and isinstance(n.ast, ast.If)
-             and isinstance(n.ast.test, ast.Name) and n.ast.test.id == SR]
-    C.require(tests, "`if <searched flag>:` not found")
+    # edges on which the flag is known to be falsy: the false branch of `if <flag>`, the true branch of
+    # `if not <flag>` (a conjunction containing the flag says nothing about the flag on its false branch)
+    falsy_edges = set()
+    n_tests = 0
+    for n in cfg.nodes:
+        if n.kind != "test" or not isinstance(n.ast, ast.If):
+            continue
+        t = n.ast.test
+        pol = None
+        if isinstance(t, ast.Name) and t.id == SR:
+            pol = False
+        elif isinstance(t, ast.UnaryOp) and isinstance(t.op, ast.Not) and isinstance(t.operand, ast.Name) and t.operand.id == SR:
+            pol = True
+        if SR in {x.id for x in ast.walk(t) if isinstance(x, ast.Name)}:
+            n_tests += 1
+        if pol is None:
+            continue
+        for sid in cfg.succ[n.id]:
+            if cfg.branch.get((n.id, sid)) is pol:
+                falsy_edges.add((n.id, sid))
+    C.require(n_tests, "no test of the searched flag found")
+    # definitions after which the flag may be truthy
+    defs = [n.id for n in cfg.nodes if n.kind == "stmt" and isinstance(n.ast, ast.Assign)
+            and any(isinstance(t_, ast.Name) and t_.id == SR for t_ in n.ast.targets) and n.id not in clears]
+    C.require(defs, "definition of the searched flag not found")
+
+    def path_flag_true(dst):
+        """a path from a truthy-capable definition of the flag to dst that neither runs the sub-optimizer, nor
+        clears the flag, nor crosses an edge on which the flag is falsy"""
+        for d0 in defs:
+            stack, seen = [[d0]], {d0}
+            while stack:
+                pth = stack.pop()
+                cur = pth[-1]
+                if cur == dst and len(pth) > 1:
+                    return pth
+                for sid in cfg.succ[cur]:
+                    if (cur, sid) in falsy_edges or sid in runs or sid in clears or sid in seen:
+                        continue
+                    if sid in defs and sid != d0:
+                        continue
+                    seen.add(sid)
+                    stack.append(pth + [sid])
+        return None
     for rt in fl.returns():
         v = rt.ast.value
         key = ctx.key(f, "C16-OWNRUN", f"return@{'flag' if v is not None else 'none'}")
@@ -495,22 +565,7 @@ def rule_ownrun(ctx):
                 continue
             r.violation(key, C.loc(f, rt.ast), "return value is not (searched-flag, record)")
             continue
-        bad = None
-        for t in tests:
-            # first node of the true branch
-            tb = [sid for sid in cfg.succ[t.id] if cfg.branch.get((t.id, sid)) is True]
-            for start in tb:
-                if start in runs or start in clears:
-                    continue
-                if start == rt.id:
-                    bad = [t.id, start]
-                    break
-                p = cfg.path_avoiding(start, runs + clears, dst=rt.id)
-                if p is not None:
-                    bad = [t.id] + p
-                    break
-            if bad:
-                break
+        bad = path_flag_true(rt.id)
         if bad:
             r.violation(key, C.loc(f, rt.ast), "this return can report searched=True on a path "
                         "on which this thread did not run the suboptimizer itself; search() "
